@@ -103,7 +103,7 @@ def parse_fields(s):
     return d
 
 
-def run_matrix(cases, timeout=3000):
+def run_matrix(cases, timeout=900):
     """-> (records, error).  record: dict(case, impl(raw), desc, model(raw), spec(raw))"""
     ins, tys = enums()
     text = "\n".join(cases) + "\n"
